@@ -71,3 +71,10 @@ func verifRoundTripUnix2Time(v Unix2Time) (Unix2Time, error) {
 	var err = o.Scan(x)
 	return *o, err
 }
+
+func verifRoundTripJsByte(v JsByte) (JsByte, error) {
+	var b, _ = v.MarshalJSON()
+	var o = new(JsByte)
+	var err = o.UnmarshalJSON(b)
+	return *o, err
+}
